@@ -50,6 +50,10 @@ Definition fix_memcache_level : bool := true.
 Definition fix_width_overflow : bool := true.
 (* fix-C07-synthetic-intlv-deeper-level.diff: assert(nb); assert(step) replaced by an error *)
 Definition fix_intlv_deeper : bool := true.
+(* PENDING (patches/fix-C07-synthetic-explicit-dup-indexes.diff, not yet in /repo): explicit index lists with a
+   duplicate are ignored; set to true when committed *)
+Definition fix_dup_indexes : bool := false.
+Fixpoint dupb (l : list N) : bool := match l with [] => false | x :: r => existsb (N.eqb x) r || dupb r end.
 
 Definition MAXD : N := HWLOC_SYNTHETIC_MAX_DEPTH.
 Definition U32 : N := 4294967296.
@@ -442,7 +446,9 @@ Definition process_indexes v s lv (istr : option (N * N)) (total : N) : out (opt
     else
       let body :=
         do* i := lift (strspn s attr [48;49;50;51;52;53;54;55;56;57;44]) in
-        if i =? length then explicit_f (2 + List.length s) s attr 0 total []
+        if i =? length then
+          do* a := explicit_f (2 + List.length s) s attr 0 total [] in
+          if fix_dup_indexes && dupb a then Rej else Ret a
         else interleave v s lv attr length total in
       match body with Ret a => Ret (Some a) | Rej => Ret None | Fault f => Fault f end
   end.
